@@ -1,5 +1,6 @@
 //! Generators (all decode from a choice stream, `engine::Src`).
 pub mod build;
+pub mod env;
 pub mod prog;
 pub mod types;
 pub mod values;
